@@ -205,6 +205,9 @@ def run(tier):
     seed_protocol(ck, tier, rngbin)
     stream(ck, tier, rngbin)
     planners_twice(ck, tier, binary)
+    # control planners (the property quantifies over geometric, control and multilevel planners)
+    import c20_control
+    c20_control.control_twice(ck, tier)
     return ck.finish()
 
 
